@@ -150,13 +150,30 @@ impl Launcher {
         }
     }
 
-    fn wait(&self, mut child: std::process::Child) -> (Exit, String, String) {
+    fn wait(&self, child: std::process::Child) -> (Exit, String, String) {
+        self.wait_with(child, None)
+    }
+
+    /// `master`: the controlling side of a pseudo terminal the child's standard output is connected to
+    /// (instead of a pipe); what the child writes there is returned as its standard output.
+    fn wait_with(&self, mut child: std::process::Child, master: Option<std::fs::File>) -> (Exit, String, String) {
         // drain pipes on threads so a chatty child cannot block
-        let mut so = child.stdout.take().unwrap();
+        let so = child.stdout.take();
         let mut se = child.stderr.take().unwrap();
         let t1 = std::thread::spawn(move || {
             let mut b = Vec::new();
-            let _ = so.read_to_end(&mut b);
+            if let Some(mut so) = so {
+                let _ = so.read_to_end(&mut b);
+            } else if let Some(mut m) = master {
+                // reading the master side ends with EIO once the last slave descriptor is closed
+                let mut buf = [0u8; 4096];
+                loop {
+                    match m.read(&mut buf) {
+                        Ok(0) | Err(_) => break,
+                        Ok(n) => b.extend_from_slice(&buf[..n]),
+                    }
+                }
+            }
             String::from_utf8_lossy(&b).to_string()
         });
         let t2 = std::thread::spawn(move || {
@@ -265,6 +282,69 @@ impl Launcher {
         ChildOut { exit, events, stdout, stderr }
     }
 
+}
+
+/// Open a pseudo terminal: (master, slave).
+fn open_pty() -> Option<(std::fs::File, std::fs::File)> {
+    use std::os::unix::io::FromRawFd;
+    unsafe {
+        let m = libc::posix_openpt(libc::O_RDWR | libc::O_NOCTTY | libc::O_CLOEXEC);
+        if m < 0 {
+            return None;
+        }
+        if libc::grantpt(m) != 0 || libc::unlockpt(m) != 0 {
+            libc::close(m);
+            return None;
+        }
+        let mut name = [0 as libc::c_char; 128];
+        if libc::ptsname_r(m, name.as_mut_ptr(), name.len()) != 0 {
+            libc::close(m);
+            return None;
+        }
+        let s = libc::open(name.as_ptr(), libc::O_RDWR | libc::O_NOCTTY | libc::O_CLOEXEC);
+        if s < 0 {
+            libc::close(m);
+            return None;
+        }
+        Some((std::fs::File::from_raw_fd(m), std::fs::File::from_raw_fd(s)))
+    }
+}
+
+impl Launcher {
+    /// The real `any` binary; with `tty` its standard output is a pseudo terminal, as when a person
+    /// runs it in a terminal window (what it writes there is returned as its standard output,
+    /// carriage returns removed).
+    pub fn any_on(&self, xdg: &Paths, work: &Path, args: &[String], extra_env: &[(String, String)], rand: u64, tty: bool) -> ChildOut {
+        if !tty {
+            return self.any(xdg, work, args, extra_env, None, rand);
+        }
+        let Some((master, slave)) = open_pty() else {
+            return ChildOut { exit: Exit::SpawnFailed { why: "no pseudo terminal available".into() }, events: vec![], stdout: String::new(), stderr: String::new() };
+        };
+        let child = {
+            let mut cmd = self.command("any", xdg, work, 1, 0);
+            cmd.args(args);
+            for (k, v) in extra_env {
+                if v == "<unset>" {
+                    cmd.env_remove(k);
+                } else {
+                    cmd.env(k, v);
+                }
+            }
+            self.seed_randomness(&mut cmd, rand);
+            cmd.stdout(Stdio::from(slave));
+            match self.spawn_with_affinity(&mut cmd, 1, 0) {
+                Ok(c) => c,
+                Err(e) => return ChildOut { exit: Exit::SpawnFailed { why: e.to_string() }, events: vec![], stdout: String::new(), stderr: String::new() },
+            }
+            // `cmd` (and with it this process's copy of the slave side) is dropped here
+        };
+        let (exit, stdout, stderr) = self.wait_with(child, Some(master));
+        ChildOut { exit, events: vec![Event::FaultFired { kind: "tty".into(), point: "stdout".into(), k: 0 }], stdout: stdout.replace('\r', ""), stderr }
+    }
+}
+
+impl Launcher {
     /// The real `any` binary; with `inject` = (system call, occurrence, errno) it runs under the ptrace
     /// injector, which makes that one call fail with that errno.
     pub fn any(&self, xdg: &Paths, work: &Path, args: &[String], extra_env: &[(String, String)], inject: Option<&(String, usize, String)>, rand: u64) -> ChildOut {
